@@ -63,7 +63,7 @@ def compare(ctx, name, got_cat, events, cid, check_id=True):
 def check_case(ctx, case):
     import csep
     from csep.core.catalogs import CSEPCatalog
-    events = [tuple(e) for e in case["events"]]
+    events = [tuple(e) for e in case["events"]] * case.get("repeat", 1)      # "repeat": large catalogs
     cid = case["catalog_id"]
     region = None
     L = None
@@ -195,6 +195,8 @@ def cases(draw):
             x0, y0 = L._coord(L.lon0, i), L._coord(L.lat0, j)
             e[3] = x0 if fx == 0 else x0 + fx * L.fdh
             e[2] = y0 if fy == 0 else y0 + fy * L.fdh
+    if n and draw(st.integers(0, 15)) == 0:
+        c["repeat"] = draw(st.sampled_from([50, 200]))
     return draw_tz(draw, c)
 
 
